@@ -75,8 +75,14 @@ func simpleArg(info *types.Info, e ast.Expr) bool {
 }
 
 // inlineOf prepares (once per call site) the callee copy for a call event, or returns nil.
-func (f *Flow) inlineOf(e Event) *inlined {
+func (f *Flow) inlineOf(e Event) (res *inlined) {
+	if os.Getenv("COERLINT_DEBUGINL") != "" && e.Call != nil {
+		defer func() {
+			fmt.Fprintf(os.Stderr, "INL %s: %s -> %v (mode %d, stack %d)\n", f.Name, ExprStr(e.Call.Fun)[:min(40, len(ExprStr(e.Call.Fun)))], res != nil, f.inlMode, len(f.inlStack))
+		}()
+	}
 	if inlineOff || e.Call == nil || len(f.inlStack) >= inlinePrivDepth {
+		dbgInl(85)
 		return nil
 	}
 	if in, ok := f.inl[e.Call]; ok {
@@ -90,22 +96,27 @@ func (f *Flow) inlineOf(e Event) *inlined {
 	}
 	fnObj, ok := e.Callee.(*types.Func)
 	if !ok {
+		dbgInl(98)
 		return nil
 	}
 	callee := f.P.DeclOf(fnObj)
 	if callee == nil || callee.Decl.Body == nil {
+		dbgInl(102)
 		return nil
 	}
 	for _, s := range f.inlStack {
 		if s == callee {
+			dbgInl(106)
 			return nil
 		}
 	}
 	if f.self != nil && f.self == callee {
+		dbgInl(110)
 		return nil
 	}
 	sig, _ := fnObj.Type().(*types.Signature)
 	if sig == nil || sig.Variadic() || sig.RecvTypeParams().Len() > 0 {
+		dbgInl(114)
 		return nil
 	}
 	// a private helper of the analysed function (a piece it was split into) is inlined generously:
@@ -115,6 +126,7 @@ func (f *Flow) inlineOf(e Event) *inlined {
 	if priv {
 		maxStmts, maxPaths = inlinePrivStmts, inlinePrivPaths
 	} else if len(f.inlStack) >= inlineMaxDepth {
+		dbgInl(123)
 		return nil
 	}
 	if f.inlMode >= 2 {
@@ -127,11 +139,13 @@ func (f *Flow) inlineOf(e Event) *inlined {
 		}
 	}
 	if countStmts(callee.Decl.Body) > maxStmts {
+		dbgInl(135)
 		return nil
 	}
 	// the callee's own (memoised) analysis tells cheaply whether it has too many paths to splice in
 	if own := f.P.FlowOf(callee); own != f && !own.busy {
 		if ps, ok := own.Paths(); !ok || len(ps) > maxPaths {
+			dbgInl(140)
 			return nil
 		}
 	}
@@ -140,9 +154,11 @@ func (f *Flow) inlineOf(e Event) *inlined {
 	if sel, ok := ast.Unparen(e.Call.Fun).(*ast.SelectorExpr); ok {
 		if s := f.Info.Selections[sel]; s != nil {
 			if s.Kind() != types.MethodVal {
+				dbgInl(148)
 				return nil
 			}
 			if _, isIface := s.Recv().Underlying().(*types.Interface); isIface {
+				dbgInl(151)
 				return nil
 			}
 			recvArg = sel.X
@@ -158,12 +174,14 @@ func (f *Flow) inlineOf(e Event) *inlined {
 	var pars []par
 	if decl.Recv != nil && len(decl.Recv.List) == 1 {
 		if recvArg == nil {
+			dbgInl(166)
 			return nil
 		}
 		if len(decl.Recv.List[0].Names) == 1 {
 			pars = append(pars, par{decl.Recv.List[0].Names[0], recvArg})
 		}
 	} else if recvArg != nil {
+		dbgInl(172)
 		return nil
 	}
 	ai := 0
@@ -174,6 +192,7 @@ func (f *Flow) inlineOf(e Event) *inlined {
 		}
 		for _, nm := range fld.Names {
 			if ai >= len(e.Call.Args) {
+				dbgInl(182)
 				return nil
 			}
 			pars = append(pars, par{nm, e.Call.Args[ai]})
@@ -181,6 +200,7 @@ func (f *Flow) inlineOf(e Event) *inlined {
 		}
 	}
 	if ai != len(e.Call.Args) {
+		dbgInl(189)
 		return nil
 	}
 	// objects written or address-taken in the callee
@@ -191,6 +211,7 @@ func (f *Flow) inlineOf(e Event) *inlined {
 			if id, ok := x.(*ast.Ident); ok {
 				return cinfo.Uses[id]
 			}
+			dbgInl(199)
 			return nil
 		}
 		switch x := n.(type) {
@@ -273,7 +294,17 @@ func (f *Flow) inlineOf(e Event) *inlined {
 		inlStack: append(append([]*Func{}, f.inlStack...), callee), self: f.self, inlMode: f.inlMode}
 	sub.prepare()
 	paths, ok := sub.Paths()
+	if (!ok || len(paths) > maxPaths) && sub.inlMode == 0 {
+		// too big with the private helpers of the analysed function spliced into it (a callback handed to
+		// this helper may call one): once more with small callees only
+		sub = &Flow{P: f.P, Pkg: f.Pkg, Info: f.Info, Node: body, Body: body, Name: callee.Key + "@inl" + suffix,
+			comm: map[ast.Node]bool{}, caseTag: map[ast.Expr]*ast.SwitchStmt{}, inl: map[*ast.CallExpr]*inlined{},
+			inlStack: append(append([]*Func{}, f.inlStack...), callee), self: f.self, inlMode: 1}
+		sub.prepare()
+		paths, ok = sub.Paths()
+	}
 	if !ok || len(paths) > maxPaths || len(paths) == 0 {
+		dbgInl(282)
 		return nil
 	}
 	in.flow = sub
@@ -377,4 +408,10 @@ func (f *Flow) inlineLit(e Event, lit *ast.FuncLit) *inlined {
 	}
 	in.flow = sub
 	return in
+}
+
+func dbgInl(line int) {
+	if os.Getenv("COERLINT_DEBUGINL") != "" {
+		fmt.Fprintf(os.Stderr, "  INL-REJECT at inline.go:%d\n", line)
+	}
 }
